@@ -24,14 +24,7 @@ func searchLoopLeaks(p *Prog, fn *ssa.Function) []string {
 					continue
 				}
 				if why := notPositiveExit(s); why != "" {
-					pos := token.NoPos
-					if last := b.Instrs[len(b.Instrs)-1]; last.Pos().IsValid() {
-						pos = last.Pos()
-					} else if ifi, ok := last.(*ssa.If); ok {
-						if in, ok := ifi.Cond.(ssa.Instruction); ok {
-							pos = in.Pos()
-						}
-					}
+					pos := branchPos(b)
 					out = append(out, why+" (left at "+p.Pos(pos)+")")
 				}
 			}
@@ -73,4 +66,51 @@ func notPositiveExit(s *ssa.BasicBlock) string {
 		return "the loop is left by returning a value that was not found to be a positive answer"
 	}
 	return "the loop is left without returning an answer"
+}
+
+// earlyExitsAround: the edges that leave a loop containing blk from a block other than the loop's header (break, return,
+// goto, a second condition of the loop header), described by the position of the branch. Panics do not count.
+func earlyExitsAround(p *Prog, blk *ssa.BasicBlock) []string {
+	var out []string
+	fn := blk.Parent()
+	for _, h := range loopHeaders(fn) {
+		body := naturalLoop(h)
+		if !body[blk] {
+			continue
+		}
+		for _, b := range fn.Blocks {
+			if !body[b] || b == h {
+				continue
+			}
+			for _, s := range b.Succs {
+				if body[s] {
+					continue
+				}
+				if _, isPanic := s.Instrs[len(s.Instrs)-1].(*ssa.Panic); isPanic {
+					continue
+				}
+				out = append(out, "the loop is left at "+p.Pos(branchPos(b)))
+			}
+		}
+	}
+	return out
+}
+
+// branchPos: a source position for the branch that ends b.
+func branchPos(b *ssa.BasicBlock) token.Pos {
+	last := b.Instrs[len(b.Instrs)-1]
+	if last.Pos().IsValid() {
+		return last.Pos()
+	}
+	if ifi, ok := last.(*ssa.If); ok {
+		if in, ok := ifi.Cond.(ssa.Instruction); ok && in.Pos().IsValid() {
+			return in.Pos()
+		}
+	}
+	for i := len(b.Instrs) - 1; i >= 0; i-- {
+		if b.Instrs[i].Pos().IsValid() {
+			return b.Instrs[i].Pos()
+		}
+	}
+	return token.NoPos
 }
